@@ -45,8 +45,14 @@ TT = 'chainables.tree'
 
 
 def run(ctx: Ctx):
-  for r in (r1, r2, r3, r4, r5, r6):
+  for r in (r1, r2, r3, r4, r5, r6, r8):
     ctx.guard(r)
+  from mlmverif.props import c03
+  ctx.include('R-C02-7', 'every sliced aggregate sees every slice: the slices of'
+              ' a batch are one-shot generators, never shared between the'
+              ' aggregates of a stage without being materialised (R-C03-6'
+              ' single-pass discipline over transform.py / tree_fns.py)',
+              c03.r6, ('chainables.transform', 'chainables.tree_fns'), 'R-C03-6', 8, min_instances=8)
 
 
 def r1(ctx: Ctx):
@@ -479,11 +485,86 @@ def r6(ctx: Ctx):
   ctx.floor(rule, 1)
 
 
+STR_PASSES = ('__contains__', '__iter__', '__len__', '__getitem__')
+STR_PASSES_ABC = ('Iterable', 'Sequence', 'Container', 'Collection', 'Sized', 'Reversible')
+
+
+def _str_passing_test(t: ast.AST) -> str | None:
+  """Name tested by a container test that a plain str also passes."""
+  if isinstance(t, ast.Call) and unparse(t.func) == 'hasattr' and len(t.args) == 2 and isinstance(
+      t.args[0], ast.Name) and isinstance(t.args[1], ast.Constant) and t.args[1].value in STR_PASSES:
+    return t.args[0].id
+  if isinstance(t, ast.Call) and unparse(t.func) == 'isinstance' and len(t.args) == 2 and isinstance(
+      t.args[0], ast.Name):
+    kinds = t.args[1].elts if isinstance(t.args[1], ast.Tuple) else [t.args[1]]
+    names = [unparse(k).split('.')[-1] for k in kinds]
+    if any(n in STR_PASSES_ABC for n in names) and 'str' not in names:
+      return t.args[0].id
+  return None
+
+
+def r8(ctx: Ctx):
+  rule = 'R-C02-8'
+  ctx.rule(rule, 'a single string is ONE slice value / key, not a container of'
+           ' characters: where key or value specifications are normalised'
+           ' ("wrap a single value, keep a collection"), the collection test'
+           ' is not one that a plain str passes (hasattr __contains__/__iter__,'
+           ' isinstance Iterable/Sequence/Container without excluding str) —'
+           ' otherwise `value in "en-US"` becomes a substring test and slice'
+           ' keys outside the restricted set are invented')
+  n = 0
+  hits = 0
+  for mod in (TF, TT, TR):
+    mi = ctx.repo.module(mod)
+    fns = list(mi.functions.values()) + [m for c in mi.classes.values() for m in c.methods.values()]
+    for fi in fns:
+      n += 1
+      for x in ast.walk(fi.node):
+        if not isinstance(x, (ast.IfExp, ast.If)):
+          continue
+        tests = x.test.values if isinstance(x.test, ast.BoolOp) else [x.test]
+        neg_str = any(isinstance(t, ast.UnaryOp) and isinstance(t.op, ast.Not) and 'str' in unparse(t)
+                      for t in tests) or 'str' in unparse(x.test)
+        for t in tests:
+          v = _str_passing_test(t)
+          if v is None or neg_str:
+            continue
+          branches = [x.body, x.orelse] if isinstance(x, ast.IfExp) else [
+              *[s_ for s_ in x.body], *[s_ for s_ in x.orelse]]
+          wraps = any(isinstance(y, (ast.Tuple, ast.List)) and len(y.elts) == 1 and isinstance(
+              y.elts[0], ast.Name) and y.elts[0].id == v for b in branches for y in ast.walk(b))
+          if wraps:
+            hits += 1
+            ctx.fail(rule, fi, f'{fi.qualname}: wrap-a-single-value test treats str as a scalar',
+                     f'{fi.qualname} decides between "use `{v}` as a collection" and'
+                     f' "wrap `{v}` as a single value" with `{unparse(t)}`, which a plain'
+                     ' string passes: a single string value is then used as a'
+                     ' collection of its characters/substrings', node=x)
+  # positive control: the detector must recognise the pitfall shape
+  probe = ast.parse("w = v if hasattr(v, '__contains__') else (v,)").body[0].value
+  if _str_passing_test(probe.test) != 'v':
+    raise AnalysisError(f'{rule}: positive control not recognised')
+  ctx.ok(rule, None, f'{n} functions of tree_fns/tree/transform: no str-passing collection test'
+         f' decides a wrap ({hits} found); positive control recognised', where='ml_metrics/_src/chainables')
+  ctx.floor(rule, 40, n)
+
+
 from mlmverif.selfcheck import B, OK  # noqa: E402
 
 _T = 'chainables/transform.py'
 _F = 'chainables/tree_fns.py'
 VARIANTS = [
+    B('restricted-values-duck-typed', _F,
+      '      within_values = tuple(map(tree.normalize_keys, within_values))',
+      "      within_values = tuple(v if hasattr(v, '__contains__') else (v,) for v in within_values)",
+      'R-C02-8'),
+    OK('restricted-values-duck-typed-excluding-str', _F,
+       '      within_values = tuple(map(tree.normalize_keys, within_values))',
+       "      within_values = tuple(v if hasattr(v, '__contains__') and not isinstance(v, str) else (v,) for v in within_values)"),
+    B('slices-shared-between-aggregates', _T,
+      '    for output_key, tree_agg_fn in self.agg_fns.items():\n      try:',
+      '    batch_slices = [(slicer, slicer.iterate_and_slice(inputs)) for slicer in self.slicers]\n    for output_key, tree_agg_fn in self.agg_fns.items():\n      for slicer, slices in batch_slices:\n        for slice_key, masks in slices:\n          pass\n      try:',
+      'R-C02-7'),
     B('with-masks-keeps-replacement', _F,
       '    \"\"\"Returns a new TreeFn with the masks.\"\"\"\n',
       '    \"\"\"Returns a new TreeFn with the masks.\"\"\"\n    if replace_mask_false_with == tree.DEFAULT_FILTER:\n      return dc.replace(self, masks=masks)\n',
